@@ -28,7 +28,9 @@ and never mentions the model's handlers.
   default holds an integer 0 on a Paraver type without PRV_ZERO; `noZeroIds_init`: it holds for
   `mkEmu …` as soon as the TIDs and PIDs are non-zero; `records_total`: in a well-formed state
   satisfying it the records of every accepted OH* event can be emitted, and it holds again after
-  the step; `tid_zero_records_fail`: without it the handlers accept and `emit` refuses.
+  the step; `tid_zero_records_fail`: without it the handlers accept and `emit` refuses;
+  `stepEv_rejects_only_zero`: that ("forbidden value 0") is the only way the full step can fail
+  where its emulator component accepts.
 * `stepEv_history_accept_iff`: with `NoZeroIds`, folding the **full** `stepEv` (handlers, record
   emission, flush) over an OH* history and then `finish` succeeds **iff** every step is legal, no
   physical CPU is ever oversubscribed and all threads end dead (`stepAccepts_accepts`: the
@@ -393,6 +395,13 @@ theorem records_total {e e1 : Emu} (h : WF e) (hz : NoZeroIds e) (hen : e.enable
     (hm : modelEvent e ti 79 72 v payload th mh = .ok e1) :
     (∃ rs, records e e1 = .ok rs) ∧ NoZeroIds e1.flushAll :=
   records_total_step th mh h hz hen (ev := (ti, 72, v, payload)) (Or.inl ⟨rfl, hv⟩) hm
+
+/-- Conversely the record emission is the **only** place where the full step can differ from its
+    emulator component, and it fails in one way only: whenever the handlers and the flush accept an
+    event (`emuStep`) and the full `stepEv` does not, the error is `emit`'s "forbidden value 0". -/
+theorem stepEv_rejects_only_zero {e e' : Emu} {ev : HEv} (hs : emuStep th mh e ev.toOEv = .ok e') {err : Err}
+    (hf : stepEv e ev.1 79 72 ev.2.1 ev.2.2 th mh = .error err) : err = .prvZero :=
+  stepEv_error_of_emuStep_ok th mh (ev := ev.toOEv) hs hf
 
 /-- `NoZeroIds` is kept by every accepted `stepEv` of an OH* event. -/
 theorem noZeroIds_step {e e' : Emu} (h : WF e) (hz : NoZeroIds e) (hen : e.enabled.contains 79 = true)
